@@ -175,6 +175,7 @@ fn apply(dict: Dictionary, step: &DStep, log: &mut Vec<Value>, quiet: bool) -> R
     match step {
         DStep::User(rows) => {
             let r = match rows {
+                Some(rows) if rows.is_empty() => dict.reset_user_lexicon_from_reader(Some("\n\n".as_bytes())),   // blank lines only
                 Some(rows) => dict.reset_user_lexicon_from_reader(Some(ADict::render_lex(rows).as_bytes())),
                 None => dict.reset_user_lexicon_from_reader(None::<&[u8]>),
             };
@@ -409,7 +410,9 @@ pub fn gen_user_rows(rng: &mut Rng, d: &ADict, bad: bool) -> Vec<AWord> {
             s: (0..len).map(|_| *rng.pick(LETTERS)).collect(),
             l: rng.below(nl) as u32, r: rng.below(nr) as u32,
             c: *rng.pick(&[-32768, -5, 0, 3, 40, 32767]),
-            f: format!("U{},x\"{}\"", i, i),
+            // one user row in six has a line feed inside a quoted feature cell (CSV allows it; the stored
+            // feature keeps it verbatim)
+            f: if rng.chance(1, 6) { format!("U{},\"x\ny{}\"", i, i) } else { format!("U{},x\"{}\"", i, i) },
         }
     }).collect();
     if !d.lex.is_empty() && rng.chance(2, 3) {
@@ -436,7 +439,11 @@ pub fn gen_user_rows(rng: &mut Rng, d: &ADict, bad: bool) -> Vec<AWord> {
 
 pub fn gen_dict_session(rng: &mut Rng, kind: u8, max_len: usize, nsteps: usize, reorder_mode: bool) -> DictSession {
     let cfg = GenCfg { conn_kind: kind, allow_user: false, ..Default::default() };
-    let d = gen_dict(rng, &cfg);
+    let mut d = gen_dict(rng, &cfg);
+    if rng.chance(1, 3) && !d.lex.is_empty() {
+        let k = rng.below(d.lex.len());
+        d.lex[k].f.push_str(",\"l\nf\"");
+    }
     let isp = d.space_cat() >= 0 && rng.chance(1, 3);
     let mgl = *rng.pick(&[0usize, 0, 2]);
     let mut steps = vec![];
@@ -458,7 +465,7 @@ pub fn gen_dict_session(rng: &mut Rng, kind: u8, max_len: usize, nsteps: usize, 
         steps.push(match rng.below(10) {
             0..=2 => DStep::User(Some(gen_user_rows(rng, &d, false))),
             3 => DStep::User(Some(gen_user_rows(rng, &d, true))),
-            4 => DStep::User(None),
+            4 => if rng.chance(1, 2) { DStep::User(Some(vec![])) } else { DStep::User(None) },   // a CSV without rows / clear
             5..=6 => DStep::Map { ll: gen_perm_list(rng, d.nl()), rl: gen_perm_list(rng, d.nr()) },
             7 => {
                 if d.nl() != d.nr() && rng.chance(1, 3) {
